@@ -345,67 +345,300 @@ def check_decoder(ctx, f, lead_id, chain, value_of_branch, strict_last=True):
                   '%s assembles the code as [%s], RFC 3629 requires [%s]' % (f['q'], bits.show(got, names, 21), bits.show(exp, names, 21)))
 
 
+def utf8_len_of(c):
+    return 1 if c < 0x80 else 2 if c < 0x800 else 3 if c < 0x10000 else 4
+
+
+def encoder_regions(ctx, prog, f, is16):
+    """Encoder decided by regions of the input code.  The stores through the output pointer are collected with their guards;
+    for a set of representative codes (every constant of a guard and every RFC 3629 boundary, each with its neighbours) the
+    guards are evaluated with the code bound: the number of stores that run must be the UTF-8 length of that code, and
+    the bit provenance of each store of that region (the code's bits above the region's maximum known zero) must be the RFC
+    layout.  Works for if-chains in any order, switch, early continue, helper functions for the trail bytes."""
+    import bounded, bytesets
+    G = q.Guarded(f)
+    srcp, dstp = f['params'][0], f['params'][1]
+    # code variable: declared from *p++ (loop condition variable or first local of the loop body)
+    units = []
+    for s_ in ir.walk_stmts(f['body']):
+        cands = []
+        if s_.get('k') in ('while', 'for') and s_.get('cv'):
+            cands.append(s_['cv'])
+        if s_.get('k') == 'decl':
+            cands += s_['vars']
+        for v in cands:
+            ini = v.get('init')
+            if ini is not None and T(f, v['t']).get('int') and any(w.get('k') == 'un' and w.get('op') == 'post++' and strip_lv(w['e']).get('id') == srcp['id'] for w in walk_expr(ini)):
+                units.append(v)
+    if not units:
+        # assigned in the loop condition: while ((c = *p++))
+        for e in fn_exprs(f):
+            if e.get('k') == 'bin' and e.get('op') == '=' and strip_lv(e['x']).get('k') == 'var' and any(w.get('k') == 'un' and w.get('op') == 'post++' and strip_lv(w['e']).get('id') == srcp['id'] for w in walk_expr(e['y'])):
+                units.append({'id': strip_lv(e['x'])['id'], 'n': strip_lv(e['x'])['n'], 't': strip_lv(e['x']).get('t')})
+    if not units:
+        raise AnalysisBroken('%s: main scanning loop not found' % f['q'])
+    cv = units[0]
+    # output pointer aliases
+    outs_ptr = {dstp['id']}
+    for vid, ini in q.single_defs(f).items():
+        if strip(ini).get('k') == 'var' and strip(ini).get('id') == dstp['id']:
+            outs_ptr.add(vid)
+    for s_ in ir.walk_stmts(f['body']):
+        if s_.get('k') == 'decl':
+            for v in s_['vars']:
+                if v.get('init') is not None and strip(v['init']).get('k') == 'var' and strip(v['init']).get('id') == dstp['id'] and T(f, v['t']).get('ptr'):
+                    outs_ptr.add(v['id'])
+    stores = []
+    for e in fn_exprs(f):
+        if e.get('k') == 'bin' and e.get('op') == '=':
+            l = strip_lv(e['x'])
+            if l.get('k') == 'un' and l.get('op') == '*':
+                b = strip(l['e'])
+                if b.get('k') == 'un' and b.get('op') == 'post++' and strip_lv(b['e']).get('id') in outs_ptr:
+                    stores.append((e, 'seq'))
+                elif b.get('k') == 'var' and b.get('id') in outs_ptr:
+                    stores.append((e, 'end'))
+            elif l.get('k') == 'idx' and strip(l['b']).get('id') in outs_ptr and const_val(l['i']) is not None:
+                stores.append((e, const_val(l['i'])))
+    order = dict((id(x), i) for i, x in enumerate(G.order))
+    stores.sort(key=lambda se: order.get(id(se[0]), 0))
+    # the terminator store `*u = 0` after the loop is not part of a character
+    stores = [(e, k) for e, k in stores if const_val(e['y']) != 0]
+    if len(stores) < 10 - (1 if is16 else 0) * 0:
+        pass
+    dvars = [v for s_ in ir.walk_stmts(f['body']) if s_.get('k') == 'decl' for v in s_['vars'] if T(f, v['t']).get('bits') == 32 and v.get('init') is not None and
+             any(const_val(w) == 0x10000 and w.get('k') == 'int' for w in walk_expr(v['init']))]
+    consts = set()
+    for e, _ in stores:
+        for c, pol, kind in G.of(e):
+            if isinstance(c, dict):
+                for w in walk_expr(q.expand(f, c, bools_only=True)):
+                    if w.get('k') == 'int' and const_val(w) is not None:
+                        consts.add(const_val(w))
+    reps = set()
+    for k in list(consts) + [0x80, 0x800, 0x10000, 0xd800, 0xdc00, 0xe000, 0x110000 if not is16 else 0x10000]:
+        reps |= {k - 1, k, k + 1}
+    top = 0xffff if is16 else 0x10ffff
+    reps = sorted(c for c in reps if 1 <= c <= top)
+    seconds = [v for v in units[1:]]
+    groups = {}
+    role = '%s:branch thresholds' % f['n']
+    bad = None
+    for c in reps:
+        if not is16 and 0xd800 <= c <= 0xdfff:
+            continue
+        env = {cv['id']: c}
+        for v in seconds:
+            env[v['id']] = 0xdc00
+        ev = bounded.Bound(prog, f, env, {})
+        adm = [(e, k) for e, k in stores if bounded.admitted(ev, G.of(e), G)]
+        ctx.evaluations += len(stores)
+        if is16 and 0xd800 <= c <= 0xdbff:
+            want = 4
+        elif is16 and 0xdc00 <= c <= 0xdfff:
+            want = 0
+        else:
+            want = utf8_len_of(c)
+        if len(adm) != want and bad is None:
+            bad = (c, len(adm), want)
+        if len(adm) == want and want:
+            groups.setdefault(tuple(id(e) for e, _ in adm), (want, c, adm))
+    if bad:
+        ctx.violation('C08.layout', f['pq'], role, fwhere(f), '%s writes %d byte(s) for U+%04X, the standard (shortest) UTF-8 form has %d: a branch threshold is off' % (f['q'], bad[1], bad[0], bad[2]))
+    else:
+        ctx.ok('C08.layout', f['pq'], role, fwhere(f), 'number of stores = UTF-8 length for %d representative codes around every threshold' % len(reps))
+    for key, (nbytes, sample, adm) in sorted(groups.items(), key=lambda kv: kv[1][0]):
+        role = '%s:%d-byte branch bit layout' % (f['n'], nbytes)
+        where = fwhere(f, adm[0][0].get('l'))
+        uses_d = [d for d in dvars if any(w.get('k') == 'var' and w.get('id') == d['id'] for e, _ in adm for w in walk_expr(e['y']))]
+        if uses_d:
+            var, name, kz = uses_d[0]['id'], uses_d[0]['n'], 21
+        else:
+            var, name, kz = cv['id'], cv['n'], {1: 7, 2: 11, 3: 16, 4: 21}[nbytes]
+        env = bits.Env(f, through_locals=True, prog=prog)
+        env.vars[var] = bits.var_bits(var, 32, known_zero_from=kz)
+        pos = []
+        seq = 0
+        for e, k in adm:
+            if k == 'seq' or k == 'end':
+                pos.append(seq)
+                seq += 1
+            else:
+                pos.append(k)
+        got = [None] * nbytes
+        okpos = sorted(pos) == list(range(nbytes))
+        if okpos:
+            for (e, k), p_ in zip(adm, pos):
+                got[p_] = bits.low(env.eval(e['y']))
+        exp = expected_utf8(var, nbytes)
+        ctx.evaluations += 8 * nbytes
+        names = {var: name}
+        if not okpos:
+            ctx.undecided('C08.layout', f['pq'], role, where, 'output positions of the %d stores not recognised' % nbytes)
+        elif any('X' in g_ for g_ in got) and not any(g_[i] != x and g_[i] != 'X' for g_, ex_ in zip(got, exp) for i, x in enumerate(ex_)):
+            ctx.undecided('C08.layout', f['pq'], role, where, 'stored bytes not resolved to bits of the code: %s' % ' | '.join(bits.show(b, names) for b in got))
+        else:
+            ctx.check(got == exp, 'C08.layout', f['pq'], role, where, ' | '.join(bits.show(b, names) for b in got),
+                      '%s writes [%s] for a %d-byte code (e.g. U+%04X), RFC 3629 requires [%s]' % (f['q'], ' | '.join(bits.show(b, names) for b in got), nbytes, sample, ' | '.join(bits.show(b, names) for b in exp)))
+    return cv, dvars, seconds
+
+
+def decoder_regions(ctx, prog, f, is_input, strict_last=True, split16=False):
+    """Decoder decided by regions of the lead byte.  For each of the 256 lead values the guards of every value site (store
+    through the output pointer / non-constant return) are evaluated with the lead bound and the trail bytes bound to a
+    continuation byte; the lead patterns 0xxxxxxx / 110xxxxx / 1110xxxx / 11110xxx must each reach one value site (other
+    leads none), and the bit provenance of that site's value must be the RFC 3629 payload layout of lead and trail bytes.
+    is_input(expr): expr designates the input pointer."""
+    import bounded
+    G = q.Guarded(f)
+    # lead and trail variables: locals / condition variables initialised by reading the input pointer, in source order
+    reads = []
+    def reads_input(ini):
+        for w in walk_expr(ini):
+            if w.get('k') == 'un' and w.get('op') in ('post++', '*') and is_input(strip_lv(w['e'])):
+                return True
+            if w.get('k') == 'idx' and is_input(strip(w['b'])):
+                return True
+        return False
+    for s_ in ir.walk_stmts(f['body']):
+        cands = []
+        if s_.get('k') in ('while', 'for') and s_.get('cv'):
+            cands.append((s_['cv'], s_))
+        if s_.get('k') == 'decl':
+            cands += [(v, s_) for v in s_['vars']]
+        for v, st in cands:
+            if v.get('init') is not None and T(f, v['t']).get('int') and reads_input(v['init']) and strip(v['init']).get('k') != 'cond':
+                reads.append((v, st))
+    if not reads:
+        raise AnalysisBroken('%s: lead byte variable not found' % f['q'])
+    lead = reads[0][0]
+    trails = reads[1:]
+    # value sites
+    sites = []
+    outp = f['params'][1]['id'] if len(f['params']) > 1 else None
+    for e in fn_exprs(f):
+        if e.get('k') == 'bin' and e.get('op') == '=' and outp is not None:
+            l = strip_lv(e['x'])
+            if l.get('k') == 'un' and l.get('op') == '*':
+                b = strip(l['e'])
+                if b.get('k') == 'un' and b.get('op') == 'post++' and strip_lv(b['e']).get('id') == outp and const_val(e['y']) is None:
+                    sites.append((e, e['y']))
+    for s_ in ir.walk_stmts(f['body']):
+        if s_.get('k') == 'return' and s_.get('e') is not None and const_val(s_['e']) is None and outp is None:
+            sites.append((s_['e'], s_['e']))
+    if not sites:
+        raise AnalysisBroken('%s: no decoded value site found' % f['q'])
+    order = dict((id(x), i) for i, x in enumerate(G.order))
+    sites.sort(key=lambda se: order.get(id(se[0]), 0))
+    idx_texts = set(pe(w) for w in fn_exprs(f) if w.get('k') == 'idx' and is_input(strip(w['b'])) and const_val(w['i']) not in (None, 0))
+    groups = {}
+    bad = None
+    for b in range(256):
+        sv = b - 256 if b > 127 else b
+        env = {lead['id']: sv}
+        for v, _ in trails:
+            env[v['id']] = -128
+        ev = bounded.Bound(prog, f, env, dict((t, -128) for t in idx_texts))
+        adm = [(e, val) for e, val in sites if bounded.admitted(ev, G.of(e), G)]
+        ctx.evaluations += len(sites)
+        want = 1 if b < 0x80 else 2 if b & 0xe0 == 0xc0 else 3 if b & 0xf0 == 0xe0 else 4 if b & 0xf8 == 0xf0 else 0
+        if b == 0:
+            continue            # the terminator ends the scan
+        if want == 0 and not strict_last and len(adm) == 1:
+            continue            # the enumerator treats any other lead as a 4-byte lead (bounded by R-SCAN)
+        nsites = 2 if (split16 and want == 4) else (1 if want else 0)
+        if len(adm) != nsites and bad is None:
+            bad = (b, len(adm), want)
+        if want >= 2 and len(adm) == nsites:
+            live = [v for v, st in trails if bounded.admitted(ev, G.stmt_guards.get(id(st), ()), G)]
+            groups.setdefault(tuple(id(e) for e, _ in adm), (want, b, adm, live))
+    role = '%s:lead patterns' % f['n']
+    if bad:
+        ctx.violation('C08.layout', f['pq'], role, fwhere(f), '%s produces %d value(s) for lead byte 0x%02x, which announces %s' % (
+            f['q'], bad[1], bad[0], 'a %d-byte sequence' % bad[2] if bad[2] else 'no valid sequence'))
+    else:
+        ctx.ok('C08.layout', f['pq'], role, fwhere(f), 'all 256 lead values select the branch of their RFC 3629 pattern')
+    for key, (nbytes, sample, adm, live) in sorted(groups.items(), key=lambda kv: kv[1][0]):
+        role = '%s:%d-byte branch bit layout' % (f['n'], nbytes)
+        where = fwhere(f, adm[0][0].get('l'))
+        val = adm[0][1]
+        if split16 and nbytes == 4:
+            # the code is rebuilt as d + 0x10000: the value is the minuend of the local initialised `X - 0x10000`
+            val = None
+            for s_ in ir.walk_stmts(f['body']):
+                if s_.get('k') == 'decl':
+                    for v in s_['vars']:
+                        ini = strip(v.get('init') or {})
+                        if ini.get('k') == 'bin' and ini.get('op') == '-' and const_val(ini['y']) == 0x10000:
+                            val = ini['x']
+            if val is None:
+                ctx.undecided('C08.layout', f['pq'], role, where, 'expected d = code - 0x10000')
+                continue
+        # sources: trail locals alive in this region in declaration order, else input[k]
+        ids = [lead['id']]
+        names = {lead['id']: 'c'}
+        use_idx = len(live) < nbytes - 1
+        if use_idx:
+            ids += [('in', k) for k in range(1, nbytes)]
+            for k in range(1, nbytes):
+                names[('in', k)] = 'u%d_' % k
+        else:
+            for j, v in enumerate(live[:nbytes - 1]):
+                ids.append(v['id'])
+                names[v['id']] = 'c%d_' % (j + 2)
+
+        def leaf(e):
+            if e.get('k') == 'idx' and is_input(strip(e['b'])):
+                k = const_val(e['i'])
+                if k is None or not 0 <= k <= 3:
+                    return ['X'] * bits.W
+                if k == 0:
+                    return bits.var_bits(lead['id'], 8, sign_extended=True)
+                return bits.var_bits(('in', k), 8, sign_extended=True)
+            return None
+        env = bits.Env(f, leaf=leaf, through_locals=True, prog=prog)
+        env.vars[lead['id']] = bits.var_bits(lead['id'], 8, sign_extended=True)
+        for v in live:
+            env.vars[v['id']] = bits.var_bits(v['id'], 8, sign_extended=True)
+        got = env.eval(val)
+        exp = expected_decode(ids, nbytes)
+        ctx.evaluations += 32
+        if 'X' in got and not any(g_ != x and g_ != 'X' for g_, x in zip(got, exp)):
+            ctx.undecided('C08.layout', f['pq'], role, where, 'decoded value not resolved to bits of the sequence: [%s]' % bits.show(got, names, 21))
+        else:
+            ctx.check(got == exp, 'C08.layout', f['pq'], role, where, bits.show(got, names, 21),
+                      '%s assembles the code as [%s] (lead 0x%02x), RFC 3629 requires [%s]' % (f['q'], bits.show(got, names, 21), sample, bits.show(exp, names, 21)))
+
+
 def check_layout(ctx, prog):
     # ---- encoders
     f = fn1(prog, 'asl::utf32toUtf8')
     ctx.analysed(f)
-    cv, loop = loop_var(f)
-    ch = find_chain(f, 4)
-    if not ch or len(ch) != 4:
-        raise AnalysisBroken('utf32toUtf8: 4-way branch chain not found')
-    check_encoder(ctx, f, cv['id'], cv['n'], [(lt_bound(f, c, cv['id']) if c is not None else None, b) for c, b in ch])
+    encoder_regions(ctx, prog, f, False)
 
     f = fn1(prog, 'asl::utf16toUtf8')
     ctx.analysed(f)
-    cv, loop = loop_var(f)
-    ch = find_chain(f, 4)
-    if not ch or len(ch) < 4:
-        raise AnalysisBroken('utf16toUtf8: branch chain not found')
-    # branches: <0x80, <0x800, not-a-surrogate (3 bytes), first surrogate (4 bytes from d)
-    check_encoder(ctx, f, cv['id'], cv['n'], [(lt_bound(f, ch[0][0], cv['id']), ch[0][1]), (lt_bound(f, ch[1][0], cv['id']), ch[1][1])])
-    c3 = strip(ch[2][0])
-    ok3 = c3.get('k') == 'bin' and c3.get('op') == '||' and lt_bound(f, c3['x'], cv['id']) == 0xd800 and strip(c3['y']).get('op') == '>' and const_val(strip(c3['y'])['y']) == 0xdfff
-    ctx.check(ok3, 'C08.layout', f['pq'], 'utf16toUtf8:3-byte branch excludes surrogates', fwhere(f, ch[2][1].get('l')), 'c < 0xd800 || c > 0xdfff',
-              'utf16toUtf8 3-byte branch condition `%s` is not (c < 0xd800 || c > 0xdfff)' % pe(ch[2][0]))
-    env = bits.Env(f)
-    env.vars[cv['id']] = bits.var_bits(cv['id'], 32, known_zero_from=16)
-    got = [bits.low(env.eval(e)) for e in stores_through(ch[2][1])]
-    exp = expected_utf8(cv['id'], 3)
-    ctx.check(got == exp, 'C08.layout', f['pq'], 'utf16toUtf8:3-byte branch bit layout', fwhere(f, ch[2][1].get('l')), 'standard 3-byte layout',
-              'utf16toUtf8 writes [%s] for a BMP unit, RFC 3629 requires [%s]' % (' | '.join(bits.show(b, {cv['id']: 'c'}) for b in got), ' | '.join(bits.show(b, {cv['id']: 'c'}) for b in exp)))
-    # surrogate branch: d = (((c - 0xd800) << 10) | (c2 - 0xdc00)) + 0x10000 ; 4 bytes from d
-    sb = ch[3][1]
-    dvars = [v for s_ in ir.walk_stmts(sb) if s_.get('k') == 'decl' for v in s_['vars'] if T(f, v['t']).get('bits') == 32 and not T(f, v['t']).get('sg')]
-    consts = sorted(set(const_val(w) for e in ir.stmt_exprs(sb) for w in walk_expr(e) if w.get('k') == 'int' and const_val(w) is not None and const_val(w) >= 0x400))
-    ctx.check(bool(dvars) and lt_bound(f, ch[3][0], cv['id']) == 0xdc00, 'C08.layout', f['pq'], 'utf16toUtf8:first-surrogate range', fwhere(f, sb.get('l')),
-              'first surrogate is < 0xdc00', 'the surrogate branch is not selected by c < 0xdc00 (after c >= 0xd800)')
-    if dvars:
+    cv, dvars, seconds = encoder_regions(ctx, prog, f, True)
+    # surrogate pair recombination: d = (((c - 0xd800) << 10) | (c2 - 0xdc00)) + 0x10000, evaluated for corner pairs
+    role = 'utf16toUtf8:surrogate pair recombination'
+    if len(dvars) != 1 or len(seconds) != 1:
+        ctx.undecided('C08.layout', f['pq'], role, fwhere(f), 'recombined code / second unit not found')
+    else:
         d = dvars[0]
-        # evaluate the recombination for corner pairs: code = 0x10000 + ((hi - 0xd800) << 10) + (lo - 0xdc00)
-        lows = [v for s_ in ir.walk_stmts(sb) if s_.get('k') == 'decl' for v in s_['vars'] if v['id'] != d['id'] and T(f, v['t']).get('int')]
         import bytesets
         bad = []
         try:
             for hi in (0xd800, 0xd801, 0xd83d, 0xd83f, 0xd840, 0xd87f, 0xdbff):
                 for lo in (0xdc00, 0xdc01, 0xde00, 0xdfff):
-                    env = {cv['id']: hi}
-                    if lows:
-                        env[lows[0]['id']] = lo
-                    got = bytesets.Evaluator(prog, f, env).ev(d['init']) & 0xffffffff
+                    got = bytesets.Evaluator(prog, f, {cv['id']: hi, seconds[0]['id']: lo}).ev(d['init']) & 0xffffffff
                     want = 0x10000 + ((hi - 0xd800) << 10) + (lo - 0xdc00)
                     ctx.evaluations += 1
                     if got != want:
                         bad.append((hi, lo, got, want))
-            ctx.check(not bad, 'C08.layout', f['pq'], 'utf16toUtf8:surrogate pair recombination', fwhere(f, d['l']), '28 corner pairs give 0x10000 + ((hi-0xd800)<<10) + (lo-0xdc00)',
+            ctx.check(not bad, 'C08.layout', f['pq'], role, fwhere(f, d['l']), '28 corner pairs give 0x10000 + ((hi-0xd800)<<10) + (lo-0xdc00)',
                       'the surrogate pair (%04x, %04x) is recombined to U+%X instead of U+%X: characters of some supplementary planes do not survive UTF-16 -> UTF-8' % (bad[0] if bad else (0, 0, 0, 0)))
         except bytesets.Undecidable as ex:
-            ctx.undecided('C08.layout', f['pq'], 'utf16toUtf8:surrogate pair recombination', fwhere(f, d['l']), 'recombination expression not evaluable: %s' % ex)
-        env = bits.Env(f)
-        env.vars[d['id']] = bits.var_bits(d['id'], 32, known_zero_from=21)
-        got = [bits.low(env.eval(e)) for e in stores_through(sb)]
-        exp = expected_utf8(d['id'], 4)
-        ctx.check(got == exp, 'C08.layout', f['pq'], 'utf16toUtf8:4-byte branch bit layout', fwhere(f, sb.get('l')), 'standard 4-byte layout',
-                  'utf16toUtf8 writes [%s] for a supplementary code, RFC 3629 requires [%s]' % (' | '.join(bits.show(b, {d['id']: 'd'}) for b in got), ' | '.join(bits.show(b, {d['id']: 'd'}) for b in exp)))
+            ctx.undecided('C08.layout', f['pq'], role, fwhere(f, d['l']), 'recombination expression not evaluable: %s' % ex)
 
     # ---- decoders
     def stored_value(body):
@@ -418,29 +651,18 @@ def check_layout(ctx, prog):
 
     f = fn1(prog, 'asl::utf8toUtf32')
     ctx.analysed(f)
-    cv, loop = loop_var(f)
-    ch = find_chain(f, 4)
-    if not ch:
-        raise AnalysisBroken('utf8toUtf32: branch chain not found')
-    check_decoder(ctx, f, cv['id'], ch, stored_value)
+    inp = f['params'][0]['id']
+    decoder_regions(ctx, prog, f, lambda e: e.get('k') == 'var' and e.get('id') == inp)
 
     f = fn1(prog, 'asl::utf8toUtf16')
     ctx.analysed(f)
-    cv, loop = loop_var(f)
+    inp16 = f['params'][0]['id']
+    decoder_regions(ctx, prog, f, lambda e: e.get('k') == 'var' and e.get('id') == inp16, split16=True)
     ch = find_chain(f, 4)
-    if not ch:
-        raise AnalysisBroken('utf8toUtf16: branch chain not found')
-    # the 4-byte branch first builds d = code - 0x10000 and splits it
-    def stored_or_d(body):
-        for s_ in ir.walk_stmts(body):
-            if s_.get('k') == 'decl':
-                for v in s_['vars']:
-                    ini = strip(v.get('init') or {})
-                    if ini.get('k') == 'bin' and ini.get('op') == '-' and const_val(ini['y']) == 0x10000:
-                        return ini['x']
-        return stored_value(body)
-    check_decoder(ctx, f, cv['id'], ch, stored_or_d)
-    b4 = ch[3][1]
+    if not ch or len(ch) < 4:
+        ctx.undecided('C08.layout', f['pq'], 'utf8toUtf16:surrogate split', fwhere(f), 'four-way branch chain not found')
+        ch = None
+    b4 = ch[3][1] if ch else f['body']
     # the split is evaluated for corner codes: units = 0xd800 + ((code-0x10000) >> 10), 0xdc00 + ((code-0x10000) & 0x3ff)
     import bytesets
     dv = [v for s_ in ir.walk_stmts(b4) if s_.get('k') == 'decl' for v in s_['vars'] if strip(v.get('init') or {}).get('k') == 'bin' and strip(v['init']).get('op') == '-' and const_val(strip(v['init'])['y']) == 0x10000]
@@ -464,15 +686,7 @@ def check_layout(ctx, prog):
 
     f = fn1(prog, 'asl::String::Enumerator::operator*')
     ctx.analysed(f)
-    ch = find_chain(f, 4)
-    if not ch:
-        raise AnalysisBroken('Enumerator::operator*: branch chain not found')
-    leadv = None
-    for s_ in ir.walk_stmts(f['body']):
-        if s_.get('k') == 'decl':
-            leadv = s_['vars'][0]
-            break
-    check_decoder(ctx, f, leadv['id'], ch, returned_value, strict_last=False)
+    decoder_regions(ctx, prog, f, lambda e: e.get('k') == 'mem' and e.get('f') == 'u', strict_last=False)
 
 
 # ------------------------------------------------------------------ C08.outbuf
